@@ -16,10 +16,13 @@ def helper_world(it):
     w.item('config', it.mk(FH + 'Config', incentive_factory_addr=ADDR(FACTORY), owner=ADDR('owner')))
 
 
-def deposit_step(ck, prog, cfg):
+def deposit_step(ck, prog, cfg, prev=False):
     assets = {'nc': (ASSET_N, ASSET_C), 'cc': (('cw20', 'token_a'), ASSET_C), 'nn': (ASSET_N, ('native', 'uusd'))}[cfg]
     def body(it):
         c = it.ctx; helper_world(it)
+        if prev:
+            # what an earlier deposit by somebody else left behind: same pair, any duration (possibly the same one)
+            it.world.item('temp_state', it.mk(FH + 'TempState', unbonding_duration=c.sym('prev_duration', 64), receiver=ADDR('bob'), pair_addr=ADDR(PAIRA)))
         amts = [c.sym('amt0', 128), c.sym('amt1', 128)]
         funds = []
         for (kind, name), a in zip(assets, amts):
@@ -30,7 +33,7 @@ def deposit_step(ck, prog, cfg):
         it.extra = dict(amts=amts)
         return enter(it, 'frontend_helper', 'execute', mk_env(it, 10**18), mk_info('alice', funds), msg)
     n = 0
-    for p in ck.explore(prog, body, 'helper.deposit.' + cfg):
+    for p in ck.explore(prog, body, 'helper.deposit.' + cfg + ('.after_other' if prev else '')):
         ck.sample(dict(entry='frontend_helper.execute(deposit)', cfg=cfg, outcome=p.short()))
         if not p.ok: continue
         n += 1
@@ -68,6 +71,7 @@ def deposit_step(ck, prog, cfg):
         ck.oblige('C11.helper.deposit.temp_state.' + cfg, p, ts is None or z3.Or(ts.fields[0] != z3.Int('duration'), not same(ts.fields[1].fields[0], 'alice'), not same(ts.fields[2].fields[0], PAIRA)),
                   'the pending deposit remembers the sender, the pair and the duration')
     ck.require(n >= 1, 'helper deposit %s: no Ok path' % cfg)
+    if not prev and cfg == 'nc': deposit_step(ck, prog, cfg, prev=True)
 
 
 def reply_step(ck, prog, lp_kind, existing):
